@@ -18,7 +18,7 @@ from vlib.vsym import lift, rv
 
 PID = "C09"
 
-QUICK_T = (("T1", None), ("T2", None), ("T3", 3), ("T7", None))
+QUICK_T = (("T1", None), ("T2", 3), ("T3", 2), ("T7", 3))
 
 
 def _model(E, templates):
@@ -185,7 +185,7 @@ def c09_moma_thorough(E):
 
 HARNESSES = [
     H("c09_pfba", c09_pfba, tiers=("quick",), quick=dict(max_paths=12000, time_budget=70),
-      bounds="T1,T2,T7 all bounds symbolic, T3 first 3; objective via model or objective= ; max/min; fraction {1,1/2,0} "
+      bounds="T1 all bounds symbolic, T2/T7 first 3, T3 first 2; objective via model or objective= ; max/min; fraction {1,1/2,0} "
              "(optimum sign assumed for fraction<1); reactions None/objects/ids"),
     H("c09_moma", c09_moma, tiers=("quick",), quick=dict(max_paths=8000, time_budget=70),
       bounds="T1 all, T2 first 3, T3 first 2 symbolic; reference: pFBA or FBA solution of the wild type (symbolic, from the "
